@@ -189,6 +189,28 @@ def run(tier, seed, replay=None):
                               + ("" if got[0] else "".join(f"; {a[0]}: {b[1:]} -> {a[1:]}" for a, b in zip(got[1], want) if a != b)[:200]))
             else:
                 chk.nontrivial.add(("rel", lang, i))
+    # ---- several functions whose names share one line with ONE marker: all of them are omitted; a commented-out
+    #      marker ("// /* nocl */", "# // nocl") marks nothing
+    for lang in LC.LANGS:
+        if lang == "Python":
+            cases2 = [("def a():\n    x = 1\ndef b():  # // nocl\n    y = 2\ndef c():  #; nocl\n    z = 3\n", ["a", "b", "c"]),
+                      ("def a():\n    x = 1\ndef b():  # /* nocl */\n    y = 2\n", ["a", "b"])]
+        else:
+            kw = "function " if lang in ("JavaScript", "TypeScript") else "int "
+            f = lambda n: kw + n + "() { x = 1; }"
+            cases2 = [(f("one") + " " + f("two") + " // nocl\n" + f("three") + "\n", ["three"]),
+                      (f("one") + " " + f("two") + " " + f("three") + " /* NOCL */\n" + f("four") + "\n" + f("five") + " // nocl\n", ["four"]),
+                      (f("one") + " // /* nocl */\n" + f("two") + " /* // nocl */\n" + f("three") + " // # nocl\n", ["one", "two", "three"]),
+                      (f("one") + " /* nocl */ " + f("two") + "\n" + f("three") + "\n", ["three"])]
+        for text, want in cases2:
+            got = LC.guarded(lambda: LC.impl_scan(lang, text))
+            names = [m[0] for m in got[1]] if got[0] == 0 else got
+            chk.evaluations += 1
+            chk.count("several names on the marked line / commented-out markers")
+            if names != want:
+                chk.violation({"language": lang, "text": text}, f"{lang}: {text!r}: reported {names}, expected {want}")
+            else:
+                chk.nontrivial.add(("shared-line", lang, text))
     # ---- the marked function is the last thing in the file, on one line, with and without a final line break
     for lang in LC.LANGS:
         if lang == "Python":
@@ -214,7 +236,9 @@ def run(tier, seed, replay=None):
     from codelimit.common.source_utils import filter_nocl_comment_tokens
     from pygments.token import Comment, Name
     leaders = ["#", ";", "//", "/*", "", "/", "*", "#!", "///", "/**", "--"]
-    words = ["nocl", "NOCL", "nOcL", "nocl x", "noclx", "no cl", "xnocl", "see nocl", "", "n", "nocl */", "ＮＯＣＬ", "ǸOCL", "nocl\n"]
+    words = ["nocl", "NOCL", "nOcL", "nocl x", "noclx", "no cl", "xnocl", "see nocl", "", "n", "nocl */", "ＮＯＣＬ", "ǸOCL", "nocl\n",
+             # a second comment leader in front of the word: only ONE leader is stripped
+             "/* nocl */", "// nocl", "; nocl", "# nocl", "/*nocl", "//nocl", "#nocl", ";nocl", "* nocl"]
     spaces = ["", " ", "  ", "\t", "\n", "\xa0", " ", "_", "\x0c"]
     tcases = []
     for ld in leaders:
